@@ -63,6 +63,12 @@ static void cells_json(vj::out& o, int phase) {
         o.key("static").b(c.is_static());
         o.key("nn").i(c.get_nb_of_nodes()).key("nf").i(c.get_nb_of_faces());
         o.key("ready").b(c.is_ready_to_divide()).key("below").b(c.is_below_min_vol());
+        {   // connectivity digest (C14: identical meshes in translated runs)
+            unsigned long long h = 1469598103934665603ULL;
+            for (auto& fc : cell_tester::faces(c)) { unsigned v[4] = {fc.is_used(), 0, 0, 0}; if (fc.is_used()) { auto t = cell_tester::tri(fc); v[1] = t[0]; v[2] = t[1]; v[3] = t[2]; }
+                for (unsigned x : v) { h ^= x; h *= 1099511628211ULL; } }
+            char hb[24]; snprintf(hb, sizeof hb, "%016llx", h); o.key("conn").str(hb);
+        }
         o.key("vol").str(dstr(c.get_volume())).key("tvol").str(dstr(c.get_target_volume())).key("press").str(dstr(c.get_pressure()));
         o.key("divvol").str(dstr(c.get_division_volume())).key("growth").str(dstr(c.get_growth_rate()));
         // C04: the laws, evaluated here with independent one-line formulas
@@ -313,6 +319,15 @@ int main(int argc, char** argv) {
         o.key("T_reached").b(solv.time() >= gp.simulation_duration_);
         o.key("ncells").i(solv.cells().size());
         // C15: a digest of the final state of every cell (bit patterns of positions and momenta, connectivity)
+        if (S.has("dump_positions") && S["dump_positions"].boolean()) {
+            o.key("final").arr();
+            for (auto& cp : solv.cells()) {
+                o.obj().key("id").i(cp->get_id()).key("vol").d(cp->get_volume()).key("press").d(cp->get_pressure()).key("pos").arr();
+                for (auto& nd : cell_tester::nodes(*cp)) if (nd.is_used()) { o.d(nd.pos().dx()).d(nd.pos().dy()).d(nd.pos().dz()); }
+                o.end_arr().end_obj();
+            }
+            o.end_arr();
+        }
         o.key("digest").arr();
         for (auto& cp : solv.cells()) {
             unsigned long long h = 1469598103934665603ULL;
